@@ -121,6 +121,49 @@ func gen(r *Rng, tier string, emit Emit) {
 		}
 		emitCase(emit, c, tier == "thorough" || k%2 == 0)
 	})
+	// create-fv and repack (implementation side only: the model does not have them)
+	nvo := 150
+	if tier == "thorough" {
+		nvo = 3000
+	}
+	for it := 0; it < nvo; it++ {
+		rr := r.Fork(uint64(6800000 + it))
+		c := editops.GenCaseVolOps(rr)
+		if it%5 == 4 {
+			// inside a flash image: create-fv takes the offset in the flash, the descriptor's regions
+			// have to tile it afterwards as before
+			c = editops.FlashCase(rr, c)
+		}
+		emit("P", "p_c02", append([]string{H(c.Img)}, editops.Tokens(c.Ops)...)...)
+	}
+	// create-fv against its model (Model/CreateFv.v): whole-block sizes
+	ncf := 40
+	if tier == "thorough" {
+		ncf = 800
+	}
+	for it := 0; it < ncf; it++ {
+		img, off, size, name := editops.CreateFvCase(r.Fork(uint64(6870000 + it)))
+		if len(img) > 9000 {
+			continue
+		}
+		emit("C", "createfv", H(img), N(off), N(size), H(name[:]))
+		emit("P", "p_c02", H(img), editops.EOp{Kind: "cfv", Off: off, Size: size, Target: editops.GuidText(name)}.Token())
+	}
+	// repack of a volume without files
+	for it := 0; it < 2; it++ {
+		c := editops.RepackEmptyCase(r.Fork(uint64(6850000 + it)))
+		emit("P", "p_c02", append([]string{H(c.Img)}, editops.Tokens(c.Ops)...)...)
+	}
+	// the ordinary edits on flash images (descriptor, BIOS region, ME / raw regions, gaps)
+	nfl := 40
+	if tier == "thorough" {
+		nfl = 1000
+	}
+	for it := 0; it < nfl; it++ {
+		rr := r.Fork(uint64(6900000 + it))
+		c := editops.FlashCase(rr, editops.GenCase(rr, rr.Pick(0, 0, 1), rr.Range(1, 3)))
+		emit("P", "p_c02", append([]string{H(c.Img)}, editops.Tokens(c.Ops)...)...)
+	}
 }
 
 func emitTables(emit Emit, c editops.ECase) {
